@@ -173,6 +173,11 @@ class World(WsWorld):
                     size = max(0, min(size, budget))
                 budget -= size
                 cuts = sorted(ch.choose(size + 1, "fcut") for _ in range(nfr - 1))
+                if M and size > M and cuts and ch.flag("fragments-add-up-to-the-limit-exactly", 0.3):
+                    # the leading fragments fill the limit to the octet: the next non-empty frame is the offender
+                    cuts[ch.choose(len(cuts), "which-cut")] = M
+                    cuts.sort()
+                    self.run.probe("fragments-fill-the-limit-exactly")
                 sizes = []
                 prev = 0
                 for c in cuts + [size]:
